@@ -106,6 +106,11 @@ func runC01Recovery(c *Ctx, a *pqAnchors) {
 			return cf != nil && (cf == a.enqueue || cf.Origin() == a.enqueue)
 		})
 	}
+	if len(puts) == 0 {
+		// the re-enqueue is made by a helper of the recovery: its call stands for the re-enqueue, and the helper's
+		// result is read through the helper's returns (resultMeansEnqueuedA1)
+		puts = putSitesA1(fn, a, 3)
+	}
 	if len(puts) != 1 {
 		c.Undecided("re-enqueue call in recovery", p.Pos(fn.Pos()), fmt.Sprintf("%d call sites", len(puts)))
 		return
@@ -134,7 +139,7 @@ func runC01Recovery(c *Ctx, a *pqAnchors) {
 				d = ins
 			}
 			inLoop := body[d.Block()]
-			okSucc := inLoop && errGuardOn(d.Block(), put, true)
+			okSucc := inLoop && (errGuardOn(d.Block(), put, true) || siteSucceededA1(d.Block(), put, a, 3))
 			okSkip := inLoop && !canReach(put.(ssa.Instruction), d, avoid) && !canReach(d, put.(ssa.Instruction), avoid)
 			c.Check(okSucc || okSkip, fmt.Sprintf("recovery delete #%d is tied to the outcome of that item's re-enqueue", n), p.Pos(o.Call.Pos()), "created on the success side of the re-enqueue, or on a branch that skips it",
 				"the delete operation is created independently of whether the item was moved: when the re-enqueue is refused (queue full after a repeated recovery or a smaller capacity) the only copy of an accepted request is deleted although it was never handed to the export function")
@@ -255,10 +260,8 @@ func runC01Recovery2(c *Ctx, a *pqAnchors) {
 	c.Rule("R10", "ORD", "start-up recovery does not overwrite the durable list of dispatched items before the re-enqueue loop: no storage batch that can still reach a re-enqueue sets that key", 1)
 	if a.recovery != nil && a.enqueue != nil {
 		fn := a.recovery
-		puts := calls(fn, func(ci ssa.CallInstruction) bool {
-			cf := staticCalleeFn(ci)
-			return cf != nil && (cf == a.enqueue || cf.Origin() == a.enqueue)
-		})
+		// the re-enqueue calls: of the enqueue method, or of a helper that makes it
+		puts := putSitesA1(fn, a, 3)
 		// which constant key holds the dispatched list: the key Set from currentlyDispatchedItems in the dequeue
 		diKey := ""
 		for _, m := range a.methods {
@@ -295,6 +298,10 @@ func runC01Recovery2(c *Ctx, a *pqAnchors) {
 						}
 					}
 				}
+			}
+			for _, w := range leafBeforeEnqueueInHelpersA1(fn, keyWriteLeafA1(diKey), a, 3, true) {
+				bad = true
+				c.Bad("recovery keeps the dispatched list until the items are moved", p.Pos(w.Pos()), fmt.Sprintf("key %q is overwritten (inside a helper) before the re-enqueue", diKey))
 			}
 			if !bad {
 				c.OK("recovery keeps the dispatched list until the items are moved", p.Pos(fn.Pos()), fmt.Sprintf("no write of %q can reach the re-enqueue", diKey))
